@@ -335,7 +335,11 @@ def parseCmd (name : Bytes) (a : List Bytes) : Option Cmd :=
      | nk :: k :: r => do
        let nk ← int? nk
        let all := k :: r
-       -- LIMIT n at the very end
+       -- the first numkeys words are keys, whatever they spell; then nothing or LIMIT n
+       if 0 < nk && nk.toNat ≤ all.length && (all.drop nk.toNat).length != 2 && (all.drop nk.toNat).length != 0 then none
+       else if 0 < nk && nk.toNat ≤ all.length && (all.drop nk.toNat).length == 0 then pure (.sintercard nk all 0)
+       else
+       -- (numkeys out of step with the words: the command function reports it) LIMIT n at the very end
        let m := all.length
        if m ≥ 3 && lowerB (all.getD (m - 2) []) == sb "limit" then
          match int? (all.getD (m - 1) []) with
